@@ -164,6 +164,15 @@ def run(chk):
     unp = [n for n in own_nodes(eu.node) if isinstance(n, ast.Assign) and isinstance(n.value, ast.Call) and (dotted(n.value.func) or "").endswith("unpack_from")]
     ok = any(folder.try_fold(u.value.args[0], feu.scope, None) == "<BH" and [src(e) for e in u.targets[0].elts] == ["res_command", "self._server_crc"] and src(u.value.args[1]) == "response"
              and len(u.value.args) == 2 for u in unp if isinstance(u.targets[0], ast.Tuple))
+    if not ok:
+        # the checksum may travel through a local that is stored into self._server_crc unchanged
+        for u in unp:
+            if isinstance(u.targets[0], ast.Tuple) and len(u.targets[0].elts) == 2 and folder.try_fold(u.value.args[0], feu.scope, None) == "<BH" and src(u.value.args[1]) == "response" \
+                    and len(u.value.args) == 2 and src(u.targets[0].elts[0]) == "res_command" and isinstance(u.targets[0].elts[1], ast.Name):
+                loc_ = u.targets[0].elts[1].id
+                sts_ = [n for n in own_nodes(eu.node) if isinstance(n, ast.Assign) and dotted(n.targets[0]) == "self._server_crc"]
+                rebound = [n for n in own_nodes(eu.node) if isinstance(n, (ast.Assign, ast.AugAssign)) and n is not u and any(isinstance(t, ast.Name) and t.id == loc_ for t in ast.walk(n) if isinstance(getattr(t, "ctx", None), ast.Store))]
+                ok = len(sts_) == 1 and src(sts_[0].value) == loc_ and not rebound
     chk.check(ok, "R5", f"{CL}:{C}._end_upload | server CRC '<H' at bytes 1..2", eu.loc(), "the server's checksum is not decoded as '<BH' from byte 0")
 
     # ------------------------------------------------------------------ R5 CRC
